@@ -32,9 +32,14 @@ def strategy(draw, tier="quick"):
     methods = {"read": [], "peek": [], "write": [1 << w for w in widths]}
     if kind == "BasicFifo":
         methods["clear"] = []
+    # in one case of four a second, independent caller of read or write exists ("read_b" / "write_b"): the methods are
+    # exclusive, so of two simultaneous callers exactly one is served and every element is written / removed once
+    second = draw(st.sampled_from([None, None, None, "read", "write"]))
+    if second:
+        methods[second + "_b"] = list(methods[second])
     hi = 60 if tier == "quick" else 200
     hist = draw(history(methods, 5, hi))
-    return {"kind": kind, "depth": depth, "widths": widths, "history": hist}
+    return {"kind": kind, "depth": depth, "widths": widths, "second": second, "history": hist}
 
 
 def run_case(case) -> Result:
@@ -55,8 +60,11 @@ def run_case(case) -> Result:
         mk = lambda: FIFO(layout, depth, fifo_type=afifo.SyncFIFOBuffered)  # noqa: E731
     else:
         mk = lambda: FIFO(layout, depth)  # noqa: E731
-    h = Harness(mk)
-    names = ["read", "write"] + (["peek", "clear"] if kind == "BasicFifo" else [])
+    second = case.get("second")
+    h = Harness(mk, second_callers=(second,) if second else ())
+    if second:
+        res.labels.append("two_callers_of_" + second)
+    names = ["read", "write"] + (["peek", "clear"] if kind == "BasicFifo" else []) + ([second + "_b"] if second else [])
     flags = dict(wrap=False, rw_edge=False, clear_write=False)
 
     async def tb(ctx):
@@ -70,14 +78,30 @@ def run_case(case) -> Result:
                 a = rec.get(n)
                 if a is None:
                     continue
-                reqs[n] = {f"f{i}": v for i, v in enumerate(a)} if n == "write" else {}
+                reqs[n] = {f"f{i}": v for i, v in enumerate(a)} if n.startswith("write") else {}
             results, _ = await step(ctx, ios, reqs)
             res.stats["cycles"] = res.stats.get("cycles", 0) + 1
+            if second:
+                # fold the two callers of the contended method into one request: at most one may be served, and when
+                # both request, the outcome must be that of a single request
+                a, b = second, second + "_b"
+                req2 = [c for c in (a, b) if c in reqs]
+                acc2 = [c for c in req2 if results[c] is not None]
+                if results[a] is not None and a not in reqs or results[b] is not None and b not in reqs:
+                    return res.fail(f"cycle {cyc}: {second} ran for a caller that did not request it")
+                if len(acc2) > 1:
+                    return res.fail(f"cycle {cyc}: both callers of {second} were served in one cycle (exclusive method)")
+                if req2:
+                    win = acc2[0] if acc2 else req2[0]
+                    reqs[a] = reqs[win]
+                    results[a] = results[win]
+                reqs.pop(b, None)
+                results.pop(b, None)
             nonempty, notfull = len(q) > 0, len(q) < depth
             head = q[0] if q else None
             # admissibility: accepted <=> requested and model-ready
             for n, ready in (("read", nonempty), ("peek", nonempty), ("write", notfull), ("clear", True)):
-                if n not in names:
+                if n not in names or n.endswith("_b"):
                     continue
                 acc = results[n] is not None
                 if acc and n not in reqs:
